@@ -4,6 +4,7 @@ import LyModel.Valid.LemmasImplicit
 import LyModel.Valid.LemmasLoop
 import LyModel.Valid.WellFormed
 import LyModel.Valid.LemmasNpCont
+import LyModel.Valid.LemmasCaseStable
 /-!
 # C07 — validation is an idempotent normalisation whose reported changes are exact
 
@@ -120,6 +121,124 @@ example : KidsLookupOk Xx ∧ NoChoiceX Xx ∧ NoCase Xx.base ∧ placedL Xx Xx.
 example :
     let r := autodelStep Xx {} [.term 1 { dflt := true } [] [120]] (.term 1 { new := true } [] [119]) []
     (r.1.length, r.2.1, r.2.2.2.map (·.node.val)) = (0, false, [[120]]) := by decide
+
+/-! ## idempotence with `choice` / `case` -/
+
+/-- **`validate_idempotent` for schemas WITH `choice` / `case`** (any nesting, default cases, together with defaults, leaf-list
+defaults, containers and lists), in the repaired variants of F180 (`lyd_new_implicit` completes the case of THIS choice) and
+F188 (`lyd_validate_autodel_case_dflt` looks at every enclosing case), for every option set and EVERY tree that follows the
+schema, whatever flags `LYD_NEW` / `LYD_DEFAULT` its nodes carry: validating the result of a validation returns the same tree and
+an empty change set.  Hypotheses about the schema, all decidable (`lookupOk_of_B`, `caseWf_of_B`, `noNpContInCase_of_B`) and true
+of every parsed schema of the class: schema ids are unique (`KidsLookupOk`); on every data level the children of choices are
+cases, the data nodes have different ids and the cases around a node in the flat table are the ones on its path in the schema
+tree (`CaseWf`); and **no non-presence container is a data member of a case** (`NoNpContInCase`) — without the last one the
+statement is false, also in the C code (`validate_idempotent_choice_fails`, finding F189).  Stated for the model's
+continue-after-error semantics, so the first validation need not succeed (two cases with data: `DupCase` is logged, both stay).
+The proof: a validated tree is *stable* (`StableTop`: nothing new; `lyd_new_implicit` has nothing to do on any level,
+`implDoneX`; no default node is the leftover of a dead case, `NV`; non-presence container flags final), and every phase is the
+identity on a stable tree. -/
+theorem validate_idempotent_choice (X : SchemaX) (o : VOpts) (t : List DNode)
+    (hq1 : X.q.implicitInnerCase = false) (hq2 : X.q.autodelDirectCase = false)
+    (hl : KidsLookupOk X) (hw : CaseWf X) (hnp : NoNpContInCase X)
+    (hp : placedCL X X.top t = true) (hh : sheightL X.top ≤ walkFuel X t) :
+    (validate X o (validate X o t).tree).tree = (validate X o t).tree ∧
+    (validate X o (validate X o t).tree).evs = [] :=
+  validate_idempotent2 X o hq1 hq2 hl hw hnp t hp hh
+
+/-- the example schema with choices: `choice o { case a { leaf x; choice i { default d; case d { leaf u { default "9"; } } case e { leaf v; } }
+leaf da { default "9"; } } case b { leaf w; } } container n { choice p { default q; case q { leaf r { default "9"; } } case s { leaf t; } } }` -/
+def Sc : Schema := { modName := "ex7c", nodes := [
+  { depth := 0, kind := .choice, name := "o" },
+  { depth := 1, kind := .case, name := "a" },
+  { depth := 2, kind := .leaf, name := "x" },
+  { depth := 2, kind := .choice, name := "i", dfltCase := some "d" },
+  { depth := 3, kind := .case, name := "d" },
+  { depth := 4, kind := .leaf, name := "u", dflts := [[57]] },
+  { depth := 3, kind := .case, name := "e" },
+  { depth := 4, kind := .leaf, name := "v" },
+  { depth := 2, kind := .leaf, name := "da", dflts := [[57]] },
+  { depth := 1, kind := .case, name := "b" },
+  { depth := 2, kind := .leaf, name := "w" },
+  { depth := 0, kind := .container, name := "n" },
+  { depth := 1, kind := .choice, name := "p", dfltCase := some "q" },
+  { depth := 2, kind := .case, name := "q" },
+  { depth := 3, kind := .leaf, name := "r", dflts := [[57]] },
+  { depth := 2, kind := .case, name := "s" },
+  { depth := 3, kind := .leaf, name := "t" }] }
+def Xc : SchemaX := { SchemaX.ofSchema Sc with q := Quirks.fixed }
+/-- a history state: a new `x` of case `a` next to the old `w` of case `b`; in `n` the old default `r` of the default case `q` next to
+a new `t` of case `s` -/
+def tc : List DNode := [.term 2 { new := true } [] [49], .term 10 {} [] [50],
+  .inner 11 {} [] [.term 14 { dflt := true } [] [57], .term 16 { new := true } [] [51]]]
+
+/-- non-vacuity: the hypotheses hold for the example; the first validation removes the old case (`w`), creates the defaults of case
+`a` (`u` of the nested default case, `da`) and removes the leftover default `r` — 4 changes —, the second one does nothing -/
+example : Xc.q.implicitInnerCase = false ∧ Xc.q.autodelDirectCase = false ∧ KidsLookupOk Xc ∧ CaseWf Xc ∧ NoNpContInCase Xc ∧
+    placedCL Xc Xc.top tc = true ∧ sheightL Xc.top ≤ walkFuel Xc tc ∧
+    (validate Xc {} tc).evs.map (·.node.sid) = [10, 5, 8, 14] ∧ (validate Xc {} (validate Xc {} tc).tree).evs.length = 0 := by
+  refine ⟨rfl, rfl, lookupOk_of_B Xc (by decide), caseWf_of_B Xc (by decide), noNpContInCase_of_B Xc (by decide), by decide, by decide,
+    by decide, by decide⟩
+
+/-- schema of the witness F189: `choice ch1 { case a1 { container c { choice ch2 { case a2 { leaf y; } case b2 { container c2 { } } } } }
+case b1 { leaf w; } }` — the non-presence container `c` is a member of the non-default case `a1` -/
+def S189 : Schema := { modName := "m", nodes := [
+  { depth := 0, kind := .choice, name := "ch1" },
+  { depth := 1, kind := .case, name := "a1" },
+  { depth := 2, kind := .container, name := "c" },
+  { depth := 3, kind := .choice, name := "ch2" },
+  { depth := 4, kind := .case, name := "a2" },
+  { depth := 5, kind := .leaf, name := "y" },
+  { depth := 4, kind := .case, name := "b2" },
+  { depth := 5, kind := .container, name := "c2" },
+  { depth := 1, kind := .case, name := "b1" },
+  { depth := 2, kind := .leaf, name := "w" }] }
+def X189 : SchemaX := { SchemaX.ofSchema S189 with q := Quirks.fixed }
+/-- `c` with its old explicit `y`, and the empty `c2` just created with `lyd_new_inner` (new, default) -/
+def t189 : List DNode := [.inner 2 {} [] [.term 5 {} [] [118], .inner 7 { new := true, dflt := true } [] []]]
+
+/-- **full strength, false (finding F189, a genuine defect of the C code; replay: `corpus/valid/F189_np_container_in_case.c`)**:
+without `NoNpContInCase` a validation need not leave a fixpoint, in the repaired variants too.  `lyd_validate_new` passes `c`
+(explicit) on the top level; then, inside `c`, the new default container `c2` of case `b2` makes `lyd_validate_cases` remove the old
+case (`y`), `c2` itself goes as leftover of a case without explicit data, and `c` — now empty — is flagged default
+(`lyd_np_cont_dflt_set`): the result keeps an empty default container of the non-default, non-selected case `a1`, which the SECOND
+validation deletes as leftover case default (the tree changes, the change set is empty). -/
+theorem validate_idempotent_choice_fails :
+    ¬ ∀ (X : SchemaX) (o : VOpts) (t : List DNode), X.q.implicitInnerCase = false → X.q.autodelDirectCase = false →
+      KidsLookupOk X → CaseWf X → placedCL X X.top t = true → sheightL X.top ≤ walkFuel X t →
+      (validate X o (validate X o t).tree).tree = (validate X o t).tree ∧ (validate X o (validate X o t).tree).evs = [] := by
+  intro h
+  have := (h X189 {} t189 rfl rfl (lookupOk_of_B X189 (by decide)) (caseWf_of_B X189 (by decide)) (by decide) (by decide)).1
+  have := congrArg List.length this
+  revert this
+  decide
+
+/-- schema of the witness F188: `choice o { case a { choice i { default d; case d { leaf u { default "9"; } } } leaf da { default "9"; } } }` -/
+def S188 : Schema := { modName := "m", nodes := [
+  { depth := 0, kind := .choice, name := "o" },
+  { depth := 1, kind := .case, name := "a" },
+  { depth := 2, kind := .choice, name := "i", dfltCase := some "d" },
+  { depth := 3, kind := .case, name := "d" },
+  { depth := 4, kind := .leaf, name := "u", dflts := [[57]] },
+  { depth := 2, kind := .leaf, name := "da", dflts := [[57]] }] }
+/-- the variant with the defect F188 (auto-deletion looks at the direct case only), F180 repaired -/
+def X188 : SchemaX := { SchemaX.ofSchema S188 with q := { Quirks.fixed with autodelDirectCase := true } }
+/-- the leftover default `u` of the default case `d` (the explicit data of the outer case `a` were deleted) -/
+def t188 : List DNode := [.term 4 { dflt := true } [] [57]]
+
+/-- **the defective variant F188 is not idempotent**: `u` survives the first validation (its direct case `d` is the default case of
+`i`), counts as data of the outer case `a`, whose default `da` is created; the second validation deletes `da` as leftover of the
+dead case `a` and `lyd_new_implicit` creates it again — a non-empty change set.  (The defective variant F180 alone does not break
+idempotence — exhaustive runs of the model over small schemas find no counterexample —, it breaks `implicit_exact`.) -/
+theorem validate_idempotent_choice_F188_fails :
+    ¬ ∀ (X : SchemaX) (o : VOpts) (t : List DNode), X.q.implicitInnerCase = false →
+      KidsLookupOk X → CaseWf X → NoNpContInCase X → placedCL X X.top t = true → sheightL X.top ≤ walkFuel X t →
+      (validate X o (validate X o t).tree).tree = (validate X o t).tree ∧ (validate X o (validate X o t).tree).evs = [] := by
+  intro h
+  have := (h X188 {} t188 rfl (lookupOk_of_B X188 (by decide)) (caseWf_of_B X188 (by decide)) (noNpContInCase_of_B X188 (by decide))
+    (by decide) (by decide)).2
+  have := congrArg List.length this
+  revert this
+  decide
 
 /-! ## `lyd_is_default` against RFC 6243 / RFC 7950 §7.7.2 -/
 
@@ -266,9 +385,11 @@ example :
 
 /-! ## not proved
 
--- OPEN: `validate_idempotent` for schemas with `choice` / `case` (the defective variants F180 / F188 violate it: a second
--- validation completes an outer case / removes an outer default case).  Law `idempotent` of tools/checks/c07.py on the
--- implementation, model correspondence through `hist`.
+-- (`validate_idempotent` for schemas with `choice` / `case`: proved for the repaired variants under `NoNpContInCase`
+-- (`validate_idempotent_choice`); false without it (F189, `validate_idempotent_choice_fails`) and for the defective variant F188.)
+-- OPEN: `validate_idempotent_choice` when non-presence containers ARE case members, under a hypothesis on the data instead of the
+-- schema (e.g. no new default-flagged node next to old explicit data of another case): the flag of such a container can change
+-- after `lyd_validate_new` has passed it, which is exactly F189.
 -- OPEN: `valdiff_exact` (applying the returned diff to the input gives the output; the diff is empty iff nothing changed).
 -- The model composes `Valid.ValDiff.valDiff` with the `diff` component's `apply`; laws `valdiff-apply` / `valdiff-eq`
 -- evaluate it on the implementation; findings F177, F178, F179 are its counterexamples in the code.
